@@ -83,6 +83,7 @@ QUIRKS = {
     "A-48": "ZADD GT / LT never add a member that is not there yet, and reply the number of UPDATED members (Redis: GT / LT do not prevent adding; the reply counts added members only)",
     "A-50": "RENAMENX replies 0 when the source does not exist (Redis: error 'no such key')",
     "A-01b": "GETRANGE with stop < -len yields the empty string (Redis clamps to the first byte)",
+    "A-51": "LPOP / RPOP with an explicit count of 1 reply one bulk string, with a count of 0 a null (Redis: an array whenever a count is given)",
 }
 
 
@@ -260,6 +261,10 @@ class Ref:
         while l and len(out) < c:
             out.append(l.pop() if right else l.pop(0))
         self.put(k, "l", l)
+        if self.q and c == 1:
+            return bulk(out[0])     # A-51
+        if self.q and c == 0:
+            return "$N"             # A-51
         return arr(out)
 
     def c_rpop(self, k, cnt=None): return self.c_lpop(k, cnt, right=True)
@@ -480,6 +485,10 @@ class Ref:
         z = dict(self.get(k, "z") or {})
         added = changed = 0
         gtlt = self.q and (b"GT" in opts or b"LT" in opts)          # A-48
+        if self.q:
+            opts.discard(b"CH")                                     # A-48: accepted and ignored
+            if opts & {b"NX", b"XX", b"GT", b"LT"}:
+                pairs = pairs[:1]                                   # A-48: only the first pair is processed
         for sc, m in pairs:
             if m in z:
                 if b"NX" in opts: continue
@@ -604,8 +613,8 @@ def canon(cmd, reply):
     return reply
 
 
-def gen(rng, n):
-    """a random single-client stream over typed key pools (two keys per type + one shared name that changes type)"""
+def gen(rng, n, fams="sslhtzzk"):
+    """a random single-client stream over typed key pools (two keys per type); fams: one letter per family, repeated = weight"""
     vals = [b"", b"a", b"b", b"ab", b"0", b"1", b"-1", b"10", b"007", b"9223372036854775807", b"-9223372036854775808", b"x" * 40, b"\x00\xff", b"a b", b"12a"]
     ints = [b"0", b"1", b"-1", b"2", b"5", b"-3", b"100", b"9223372036854775807", b"-9223372036854775808"]
     idx = [b"0", b"1", b"-1", b"2", b"-2", b"3", b"-3", b"5", b"-5", b"100", b"-100"]
@@ -616,7 +625,7 @@ def gen(rng, n):
     K = lambda t: (t + c("12")).encode()        # typed pools: what nodis does with a key of another type is covered elsewhere (A-08b)
     out = []
     for _ in range(n):
-        fam = c("sslhtzzk")
+        fam = c(fams)
         if fam == "s":
             k = K("s")
             cmd = c([lambda: [b"SET", k, c(vals)], lambda: [b"GET", k], lambda: [b"GETSET", k, c(vals)], lambda: [b"SETNX", k, c(vals)], lambda: [b"APPEND", k, c(vals)],
